@@ -51,7 +51,7 @@ AcceptOK == Ev.e = "accept" =>
 
 Monitors ==
   flags' = flags
-     \cup (IF ~D!OutcomeAllowed' THEN {"OutcomeAllowed"} ELSE {})
+     \cup (IF ~(D!OutcomeAllowed' \/ phase' = "raised_lex") THEN {"OutcomeAllowed"} ELSE {})
      \cup (IF ~D!NoSilentDrop' THEN {"NoSilentDrop"} ELSE {})
      \cup (IF ~D!ShiftedIsPrefix' THEN {"ShiftedIsPrefix"} ELSE {})
      \cup (IF ncb > 0 /\ shifted' # shifted THEN {"ShiftAfterError"} ELSE {})
